@@ -120,11 +120,23 @@ def gen_cli_scenario(rng, sid, base, variant, collisions):
     vdirs = ["b", "c", "d", "e"]
     members = [("a/keep", 0)] + [("%s/v%d" % (vdirs[i % 4], i), i + 1) for i in range(len(collisions))]
     scn = A.Scenario(sid, base, [{"content": content, "members": members}],
-                     move_dir={"outside": "out", "inside": "w/zz_out", "relative": "out_rel", "other_mount": "out"}[variant])
-    scn.fake_mount = (variant == "other_mount")     # hook FCLONES_VERIF_MOUNTS: DIR on "another file system" => use_rename = false
+                     move_dir={"outside": "out", "inside": "w/zz_out", "relative": "out_rel", "other_mount": "out",
+                               "via_missing": "out_rel", "via_missing2": "out_rel", "via_existing": "out_rel",
+                               "via_missing_other_mount": "out_rel"}[variant])
+    scn.fake_mount = variant in ("other_mount", "via_missing_other_mount")     # hook FCLONES_VERIF_MOUNTS: DIR on "another file system" => use_rename = false
     if variant == "relative":
         scn.cwd = scn.base
         scn.dir_cli = "../%s/out_rel" % sid
+    elif variant.startswith("via_"):
+        # DIR spelled through another directory and "..": a MISSING one (the kernel cannot resolve newdir/.. until newdir
+        # exists: the class of the defect fixed by 730c76a) or an existing one
+        scn.cwd = scn.base
+        scn.dir_cli = {"via_missing": "newdir/../out_rel", "via_missing_other_mount": "newdir/../out_rel",
+                       "via_missing2": "na/nb/../../out_rel", "via_existing": "w/../out_rel"}[variant]
+        if "missing" in variant:
+            # the lexical norm of FsModel.v treats newdir/.. as if newdir existed: the extra mkdir(newdir) of the real run and
+            # the directory it leaves behind are outside the model; these runs are evaluated by the model-free oracle only
+            scn.model_skip = True
     extra = []
     for i, col in enumerate(collisions):
         a = os.path.join(scn.root, "%s/v%d" % (vdirs[i % 4], i))
@@ -147,6 +159,10 @@ def gen_cli_scenario(rng, sid, base, variant, collisions):
             e = ("dir", scn.move_dir)          # only DIR itself exists, empty
             if e not in extra:
                 extra.append(e)
+        elif col == "sibling_part":
+            # the target itself is free, but unrelated user files sit next to it under names a staging scheme might pick
+            extra.append(("file", rel + ".part", b"user-part-%d" % i))
+            extra.append(("file", rel + ".tmp", b"user-tmp-%d" % i))
         elif col == "link_to_source_abs":
             extra.append(("symlink", rel, a))
         elif col == "link_to_source_rel":
@@ -284,12 +300,14 @@ def run(ctx):
                   ("dangling", "dangling"), ("file", "link_to_file"), ("dangling_into_dir", "none"), ("dir", "dangling_into_dir"),
                   ("link_to_source_abs", "none"), ("link_to_source_rel", "hardlink_of_source"), ("hardlink_of_source", "link_to_source_abs"),
                   ("symlinked_parent", "symlinked_parent"),
-                  ("empty_dirs", "empty_dirs"), ("empty_dirs", "file"), ("empty_dir_root", "none")]
+                  ("empty_dirs", "empty_dirs"), ("empty_dirs", "file"), ("empty_dir_root", "none"), ("sibling_part", "file")]
         if not ctx.quick:
             combos += [(x, y) for x in COLLISIONS + SELF_COLLISIONS[:3] for y in COLLISIONS + SELF_COLLISIONS[:3] if (x, y) not in combos]
         n = 0
-        for variant in ("outside", "inside", "relative", "other_mount"):
-            for col in combos:
+        via_combos = [("file", "none"), ("none", "none"), ("dir", "dangling"), ("link_to_file", "file"), ("sibling_part", "file")]
+        for variant in ("outside", "inside", "relative", "other_mount", "via_missing", "via_missing2", "via_existing",
+                        "via_missing_other_mount"):
+            for col in (combos if not variant.startswith("via_") or not ctx.quick else via_combos):
                 if variant == "inside" and "hardlink_of_source" in col:
                     continue        # a hard link inside the scanned tree would itself be a member of the group
                 seed = ctx.rng.next()
@@ -326,7 +344,8 @@ def run(ctx):
         for sig, text in cli_oracle(c):
             ctx.violation(sig, "C18 violated by the implementation: " + text, payload(), found_input=True)
         if getattr(c.scn, "model_skip", False):
-            ctx.bump("cli_correspondence_only(symlinked_directory_outside_the_model)", "oracle_evaluated")
+            ctx.bump("cli_correspondence_only(outside_the_model)", "DIR_through_a_missing_directory" if c.variant.startswith("via_")
+                     else "symlinked_parent_directory")
             continue
         if c.extra.get("abstraction_error"):
             corr.append((c, "trace", "the libc trace could not be abstracted to the model's calls: " + c.extra["abstraction_error"]))
